@@ -32,7 +32,7 @@ func init() {
 		Rule: "for each generated image, all 2^8 combinations of {dry-run, measurement-only, SNP, TDX, snapshot directory, candidate name, overwrite, explicit VMSA count} are run through endorse.VirtualFirmware with every component behind the recording doubles (version control with workspaces, key manager, signer, certificate authority, storage). " +
 			"Oracle over the recorded call log: with dry-run no workspace is obtained and nothing is written, mode-changed or committed and the run returns (no panic); with measurement-only additionally no signer / certificate-authority / key-manager / storage call happens; " +
 			"the measurements printed on stdout by a measurement-only run equal, value for value, the tables a real run over the same image and request signs. non-trivial = distinct (flag combination, outcome class) cells. " +
-			"Added by the class audit and judged by the same rules (audit.go): sequences of runs in changing modes on ONE kept endorse.Context edited in place (and one kept command context) and on fresh values in one process, with failed real runs before dry ones and every double of the sequence watched; goroutines running mixed modes at the same time; options the matrix keeps fixed (no keys context, several back ends in VCSs, retries, output writer, keep-going, SVSM, directories, VMSA counts up to 1000, shape lists) on the recording doubles and on the file back end in prepared directories; the endorse command line through cmd.MakeApp with every spelling of --dry_run / --measurement_only, with recording components and with the shipped nonprod composition (directory trees compared); dry runs under failure bursts; the stored state of keys and authority (key directory of the file key manager, bucket of the file-backed authority) laid out in every form the readers accept besides the one the writers produce, in refused forms and with parts missing, under dry / measurement-only runs at library level and through the shipped command line, the whole directory compared entry by entry and the storage call log judged (aud_state.go)",
+			"Added by the class audit and judged by the same rules (audit.go): sequences of runs in changing modes on ONE kept endorse.Context edited in place (and one kept command context) and on fresh values in one process, with failed real runs before dry ones and every double of the sequence watched; goroutines running mixed modes at the same time; options the matrix keeps fixed (no keys context, several back ends in VCSs, retries, output writer, keep-going, SVSM, directories, VMSA counts up to 1000, shape lists) on the recording doubles and on the file back end in prepared directories; the endorse command line through cmd.MakeApp with every spelling of --dry_run / --measurement_only, with recording components and with the shipped nonprod composition (directory trees compared); dry runs under failure bursts; the stored state of keys and authority (key directory of the file key manager, bucket of the file-backed authority) laid out in every form the readers accept besides the one the writers produce, in refused forms and with parts missing, under dry / measurement-only runs at library level and through the shipped command line, the whole directory compared entry by entry and the storage call log judged (aud_state.go); the call trace of a dry run taken without faults and then every call of it (authority, signer, storage, version control) failing in turn once, twice in a row or from there on in a fresh run, on the recording doubles (library and command line) and on the file-backed authority with its bucket present or absent: completion is not judged there, calls that create / change / destroy stored state of the authority or the keys, the object store and the directory tree are (aud_fault.go)",
 		Assumptions: []string{"a dry run without measurement-only prints no measurements through the API, so only its side-effect clause is observable",
 			"stdout is captured by swapping os.Stdout for a pipe around the call (the worker is single-threaded around it)"},
 		ShardsQuick: 8, ShardsThor: 16, TimeoutS: 600, TimeoutThor: 3000, Run: run,
